@@ -239,3 +239,89 @@ def _stub_data_cases(seed, tier):
 
 
 generate_stub_data_c.native_cases = staticmethod(_stub_data_cases)
+
+
+# ---------------------------------------------------------------------------------------------- state independence (C08, C18)
+_G = "safeds_stubgen.stubs_generator._stub_string_generator:StubsStringGenerator."
+
+
+def FRESH_MODULE_TEXT(api, convert, module):
+    """What a generator that never saw another module produces for `module`."""
+    from safeds_stubgen.stubs_generator import StubsStringGenerator
+    return StubsStringGenerator(api, convert)(module)
+
+
+@contract(_G + "__call__", props=["C08", "C18"])
+class generator_call:
+    """The stub of a module is a function of (API model, naming setting, module): whatever the generator
+    rendered before (in whatever order the modules were enumerated) leaves no trace in it."""
+    deductive = False
+
+    @clause(mode="bounded")
+    def ensures_history_free(self, module, result):
+        return result == FRESH_MODULE_TEXT(self.api, self.naming_convention.name == "SAFE_DS", module)
+
+
+def _call_cases(seed, tier):
+    from specs.fixtures import PKGS, QUICK, api_for
+    from safeds_stubgen.stubs_generator import StubsStringGenerator
+    for path, style in (QUICK if tier == "quick" else PKGS):
+        api = api_for(path, style)
+        mods = [m for m in api.modules.values()]
+        if len(mods) > 12 and tier == "quick" and not path.startswith("/verif/fixtures"):
+            mods = mods[:12]
+        for conv in (False, True):
+            for i, m1 in enumerate(mods):
+                for j, m2 in enumerate(mods):
+                    if i == j or (conv and (i + j) % 3):
+                        continue
+                    g = StubsStringGenerator(api, conv)
+                    g(m1)
+                    g.reexport_modules.clear()
+                    yield {"self": g, "kwargs": {"module": m2}}
+
+
+generator_call.native_cases = staticmethod(_call_cases)
+
+
+def REEXPORT_TEXTS_ONE_BY_ONE(api, convert, reexport_modules, out_path):
+    """Each re-exported declaration rendered by a generator that renders nothing else."""
+    from safeds_stubgen.stubs_generator import StubsStringGenerator
+    out = []
+    for module_id, elements in reexport_modules.items():
+        for element in sorted(elements, key=lambda x: x.name):
+            g = StubsStringGenerator(api, convert)
+            g._current_todo_msgs = set()
+            g.reexport_modules[module_id] = [element]
+            out += g.create_reexport_module_strings(out_path)
+    return out
+
+
+@contract(_G + "create_reexport_module_strings", props=["C18", "C08", "C11"])
+class reexport_strings:
+    """The stub of a re-exported declaration depends on that declaration only, not on the declarations that are
+    re-exported next to it: the list is the concatenation of the one-element renderings."""
+    deductive = False
+
+    @clause(mode="bounded")
+    def ensures_elementwise(self, out_path, result):
+        return result == REEXPORT_TEXTS_ONE_BY_ONE(self.api, self.naming_convention.name == "SAFE_DS",
+                                                   self.reexport_modules, out_path)
+
+
+def _reexport_cases(seed, tier):
+    from pathlib import Path
+    from specs.fixtures import PKGS, QUICK, api_for
+    from safeds_stubgen.stubs_generator import StubsStringGenerator
+    for path, style in (QUICK if tier == "quick" else PKGS):
+        api = api_for(path, style)
+        for conv in (False, True):
+            for rev in (False, True):
+                g = StubsStringGenerator(api, conv)
+                mods = list(api.modules.values())
+                for m in (reversed(mods) if rev else mods):
+                    g(m)
+                yield {"self": g, "kwargs": {"out_path": Path("/out")}}
+
+
+reexport_strings.native_cases = staticmethod(_reexport_cases)
